@@ -29,10 +29,13 @@ type progCase struct {
 	Layout    sim.Layout   `json:"layout"`
 	Conns     [][][][]byte `json:"conns"` // per connection: list of commands (args)
 	Pipelined []bool       `json:"pipelined"`
+	// RefreshUs: the periodic slot refresh runs every RefreshUs microseconds while the programs run (0: production rate, no
+	// refresh during the case). The layout does not change: every refresh reads the same table, and routing must not notice.
+	RefreshUs int `json:"refresh_us,omitempty"`
 }
 
 type progInfo struct {
-	splitSpans, special, bigValue bool
+	splitSpans, special, bigValue, refreshing bool
 }
 
 const replyTimeout = 20 * time.Second
@@ -43,7 +46,14 @@ func checkProg(c progCase) (inf progInfo, v *verdict) {
 		return inf, nil
 	}
 	defer w.Close()
-	defer sim.ProductionRefreshRate()() // stable layout: see the function
+	if c.RefreshUs > 0 {
+		// the timers are read when the refresh loop arms them: set before the proxy starts
+		of, om := sim.SetRefreshTimers(time.Duration(c.RefreshUs)*time.Microsecond, time.Duration(c.RefreshUs)*time.Microsecond/2)
+		defer sim.SetRefreshTimers(of, om)
+		inf.refreshing = true
+	} else {
+		defer sim.ProductionRefreshRate()() // stable layout: see the function
+	}
 	px, err := sim.StartProxy(sim.ProxyOpts{Seeds: w.Addrs(w.Masters())})
 	if err != nil {
 		return inf, &verdict{"proxy-start", err.Error()}
@@ -204,6 +214,9 @@ func genProg(t *rapid.T) progCase {
 	if vh.Thorough() && rapid.IntRange(0, 60).Draw(t, "huge") == 0 {
 		maxVal = 3 << 20
 	}
+	if rapid.IntRange(0, 2).Draw(t, "refreshing") == 0 {
+		c.RefreshUs = rapid.SampledFrom([]int{300, 1000, 5000}).Draw(t, "refresh_us")
+	}
 	for ci := 0; ci < nc; ci++ {
 		pool := gen.NewKeyPool(t, ci, rapid.IntRange(2, 7).Draw(t, "pool"), true)
 		n := rapid.IntRange(1, 60).Draw(t, "n")
@@ -259,6 +272,9 @@ func TestStable(t *testing.T) {
 		if len(c.Conns) >= 2 {
 			vh.Rec().Class("stable", ">=2_connections")
 		}
+		if inf.refreshing {
+			vh.Rec().Class("stable", "table_refreshed_every_0.3..5ms_while_the_programs_run")
+		}
 		vh.Rec().Class("stable", "layout_"+c.Layout.Kind)
 		vh.Rec().Sample("stable", nt, func() interface{} { return describe(c) })
 	})
@@ -286,6 +302,8 @@ type wideCase struct {
 	Keys   int        `json:"keys"`
 	Conns  int        `json:"conns"`
 	Rounds int        `json:"rounds"`
+	// RefreshUs: see progCase
+	RefreshUs int `json:"refresh_us,omitempty"`
 }
 
 func checkWide(c wideCase) *verdict {
@@ -294,7 +312,12 @@ func checkWide(c wideCase) *verdict {
 		return nil
 	}
 	defer w.Close()
-	defer sim.ProductionRefreshRate()() // stable layout: see the function
+	if c.RefreshUs > 0 {
+		of, om := sim.SetRefreshTimers(time.Duration(c.RefreshUs)*time.Microsecond, time.Duration(c.RefreshUs)*time.Microsecond/2)
+		defer sim.SetRefreshTimers(of, om)
+	} else {
+		defer sim.ProductionRefreshRate()() // stable layout: see the function
+	}
 	px, err := sim.StartProxy(sim.ProxyOpts{Seeds: w.Addrs(w.Masters())})
 	if err != nil {
 		return &verdict{"proxy-start", err.Error()}
@@ -303,6 +326,7 @@ func checkWide(c wideCase) *verdict {
 	if !px.WaitTableLoaded(1, 10*time.Second) {
 		return &verdict{"table-not-loaded", "routing table not loaded"}
 	}
+	m0, a0 := w.Redirects()
 	var wg sync.WaitGroup
 	res := make([]*verdict, c.Conns)
 	for ci := 0; ci < c.Conns; ci++ {
@@ -356,13 +380,17 @@ func checkWide(c wideCase) *verdict {
 			return r
 		}
 	}
+	if m1, a1 := w.Redirects(); m1 != m0 || a1 != a0 {
+		return &verdict{"redirected-on-stable-cluster", fmt.Sprintf("%d MOVED and %d ASK replies were issued although the layout never changed and the routing table was loaded (table refreshed every %d us while the commands ran)", m1-m0, a1-a0, c.RefreshUs)}
+	}
 	return nil
 }
 
 func TestWideSplit(t *testing.T) {
 	rapid.Check(t, func(t *rapid.T) {
 		c := wideCase{Layout: sim.Layout{Masters: rapid.IntRange(2, 6).Draw(t, "masters"), Kind: rapid.SampledFrom([]string{"even", "striped", "random"}).Draw(t, "kind"), Seed: rapid.Uint64().Draw(t, "lseed")},
-			Keys: rapid.SampledFrom([]int{2, 8, 32, 128, 256}).Draw(t, "keys"), Conns: rapid.IntRange(1, 4).Draw(t, "conns"), Rounds: rapid.IntRange(5, 60).Draw(t, "rounds")}
+			Keys: rapid.SampledFrom([]int{2, 8, 32, 128, 256}).Draw(t, "keys"), Conns: rapid.IntRange(1, 4).Draw(t, "conns"), Rounds: rapid.IntRange(5, 60).Draw(t, "rounds"),
+			RefreshUs: rapid.SampledFrom([]int{0, 0, 300, 2000}).Draw(t, "refresh_us")}
 		vh.CurrentCase(prop, "wide", c)
 		v := checkWide(c)
 		vh.ClearCurrentCase()
